@@ -203,3 +203,35 @@ Theorem c05_model_equals_ordered_spec : forall ps text T, Forall is_bytes ps -> 
   prefix_search T text = Ok (spec_prefix_ordered (negb (valid_utf8 text)) ps text).
 Proof. exact model_equals_ordered_spec. Qed.
 Print Assumptions c05_model_equals_ordered_spec.
+
+(* ---------------------------------------------------------------------------------------------------------------
+   REBUILDS.  For EVERY operation sequence (Insert p | BuildFailureLinks in any order, from the empty trie):
+   BuildFailureLinks never exhausts its fuel, and when the sequence ends with a build the table is THE table
+   [built (inserted ops)]: inserting all patterns so far into the empty trie and building once.  So every theorem above
+   with the premise [built ps T] speaks about the trie of every such sequence (stale fail links left by an earlier build
+   are never read: Proofs/TrieBuild.v needs only a nil root link). *)
+From V Require Import Proofs.TrieOrderRebuild.
+
+Theorem c05_rebuild_is_one_shot_build : forall ops,
+  exists T, run_ops empty_trie ops = Some T /\ (canonical ops = true -> built (inserted ops) T).
+Proof. exact run_ops_canonical. Qed.
+Print Assumptions c05_rebuild_is_one_shot_build.
+
+(* spelled out: the five queries after any sequence that ends with a build *)
+Theorem c05_queries_after_rebuilds : forall ops text T, Forall is_bytes (inserted ops) -> is_bytes text ->
+  canonical ops = true -> run_ops empty_trie ops = Some T ->
+  let ps := inserted ops in
+  match_ T text = Ok (spec_match (mode_of ps) ps text) /\
+  find T text = Ok (map scope_of (occs true ps text)) /\
+  find_all T text = Ok (spec_find_all (mode_of ps) ps text) /\
+  prefix_search T text = Ok (spec_prefix_ordered (negb (valid_utf8 text)) ps text) /\
+  (exists l, fuzzy_search T text = Ok l /\ forall y, In y l -> In y ps /\ y <> []).
+Proof. exact queries_after_rebuilds. Qed.
+Print Assumptions c05_queries_after_rebuilds.
+
+(* the run's judge (`entry 2`) answers 1 on the model's own output (`entry 0`) for EVERY decoded case, rebuilds included
+   (a case whose last operation is not a build is not judged: c05_ok is true there by definition) *)
+Theorem c05_judge_accepts_model_all_sequences : forall ops text, Forall is_bytes (inserted ops) -> is_bytes text ->
+  c05_ok ops text (c05_model ops text) = true.
+Proof. exact judge_accepts_model_ops. Qed.
+Print Assumptions c05_judge_accepts_model_all_sequences.
